@@ -1,11 +1,10 @@
 SPECIFICATION Spec
 CONSTANTS
   Servers = {"A"}
-  B0s <- B0All
-  Shapes <- ShapesAll
-  Vias <- ViasAll
-  MaxInject = 1
+  B0s <- B0Hist
+  Shapes <- ShapesHist
+  Vias <- ViasHist
+  MaxInject = 3
   Spoof = FALSE
   RestoreAtTop = TRUE
-CONSTRAINTS GenDeep
 INVARIANTS ReplyIffValid ExactlyOne ToSender ReplyHeader NeverAnswersReply BoundedTraffic HistoryIndependence
